@@ -1,5 +1,5 @@
 (* C19/Properties.v -- pinned statements of property C19. *)
-From Sophia.C19 Require Import Model Proofs.
+From Sophia.C19 Require Import Model Proofs Config ConfigProofs.
 From Sophia.gen Require Consts.
 
 Check (get_confined : forall fs exts caches iri0,
@@ -21,6 +21,48 @@ Theorem exts_have_no_slash :
   forallb (fun e => negb (existsb (N.eqb c_slash) e)) Consts.loader_exts = true.
 Proof. vm_compute. reflexivity. Qed.
 
+(* ===== configuration: LocalLoader::check / new / add (Config.v) ===== *)
+Check (check_accepts : forall fs ns t c, check fs ns t = inr c <->
+  ends_with_slash ns = true /\ is_abs t = true /\ exists p, dir_of_text fs t = Some p /\ c = (ns, p)).
+Check (check_refusals : forall fs ns t,
+  (check fs ns t = inl IriMustEndWithSlash <-> ends_with_slash ns = false) /\
+  (check fs ns t = inl PathMustBeAbsolute <-> ends_with_slash ns = true /\ is_abs t = false) /\
+  (check fs ns t = inl PathMustBeDirectory <->
+     ends_with_slash ns = true /\ is_abs t = true /\ dir_of_text fs t = None)).
+(* a refused add leaves the loader exactly as it was; an accepted one appends one well-formed mapping *)
+Check (add_refused_unchanged : forall fs cs ns t e,
+  snd (add fs cs ns t) = Some e -> fst (add fs cs ns t) = cs /\ check fs ns t = inl e).
+Check (add_accepted : forall fs cs ns t, snd (add fs cs ns t) = None ->
+  exists c, check fs ns t = inr c /\ fst (add fs cs ns t) = cs ++ [c] /\ wf_cache fs c).
+(* invariant of every configuration reachable by any sequence of add() calls, accepted or refused *)
+Check (run_adds_wf : forall fs ops init,
+  Forall (wf_cache fs) init -> Forall (wf_cache fs) (run_adds fs init ops)).
+Check (run_adds_extends : forall fs ops init, exists added, run_adds fs init ops = init ++ added).
+Check (new_loader_spec : forall fs l cs,
+  new_loader fs l = inr cs <-> Forall2 (fun op c => check fs (fst op) (snd op) = inr c) l cs).
+Check (new_loader_first_error : forall fs l e, new_loader fs l = inl e ->
+  exists pre op post, l = pre ++ op :: post /\ check fs (fst op) (snd op) = inl e
+    /\ Forall (fun op' => exists c, check fs (fst op') (snd op') = inr c) pre).
+Check (new_loader_wf : forall fs l cs, new_loader fs l = inr cs -> Forall (wf_cache fs) cs).
+Check (new_equals_adds : forall fs l cs, new_loader fs l = inr cs -> run_adds fs [] l = cs).
+(* ===== which file a successful get returns ===== *)
+Check (find_cache_first : forall caches iri dir sub, find_cache caches iri = Some (dir, sub) ->
+  exists pre ns post, caches = pre ++ (ns, dir) :: post /\ iri = ns ++ sub
+    /\ Forall (fun c => forall s, iri <> fst c ++ s) pre).
+Check (get_found_exact : forall fs exts caches iri0 p ct,
+  snd (get fs exts true caches iri0) = Found p ct ->
+  let iri := hd [] (split_on c_hash iri0) in
+  exists e dir sub, (e = [] \/ In e exts) /\ find_cache caches (iri ++ e) = Some (dir, sub)
+    /\ forallb comp_safe (components sub) = true
+    /\ p = dir ++ normals (components sub) /\ lookup fs p = Some true /\ ct = ctype (iri ++ e)).
+Check (fragment_irrelevant : forall fs exts caches iri frag,
+  existsb (N.eqb c_hash) iri = false ->
+  get fs exts true caches (iri ++ c_hash :: frag) = get fs exts true caches iri).
+(* confinement for every loader obtainable through new()/add() *)
+Check (reachable_get_confined : forall fs exts init ops iri0 p,
+  In p (fst (get fs exts true (run_adds fs init ops) iri0)) ->
+  confined_any exts (run_adds fs init ops) (hd [] (split_on c_hash iri0)) p).
+
 Print Assumptions get_confined.
 Print Assumptions found_confined.
 Print Assumptions resolve_safe.
@@ -28,3 +70,18 @@ Print Assumptions get_confined_current_exts.
 Print Assumptions exts_have_no_slash.
 Print Assumptions prefix_refuted_dotdot.
 Print Assumptions prefix_refuted_abs.
+Print Assumptions check_accepts.
+Print Assumptions check_refusals.
+Print Assumptions add_refused_unchanged.
+Print Assumptions add_accepted.
+Print Assumptions run_adds_wf.
+Print Assumptions run_adds_extends.
+Print Assumptions new_loader_spec.
+Print Assumptions new_loader_first_error.
+Print Assumptions new_loader_wf.
+Print Assumptions new_equals_adds.
+Print Assumptions find_cache_first.
+Print Assumptions get_found_exact.
+Print Assumptions fragment_irrelevant.
+Print Assumptions reachable_get_confined.
+Print Assumptions config_examples.
